@@ -187,6 +187,14 @@ def run_check(mod, tier, seed, fresh_confirm=True):
         reported = []
         for v in new[:MAX_REPORTED]:
             small, spent = shrink(mod, v, scratch)
+            # canonical digest: the reduced schedule executed on its own, in this process
+            again = mod.replay(small['schedule'], os.path.join(scratch, 'confirm'))
+            hit = [x for x in again['violations'] if sig_key(x) == sig_key(small)]
+            if not hit:
+                print('HARNESS-ERROR violation %s did not reproduce when its schedule was re-executed' % sig_key(small))
+                exit_code = 2
+                continue
+            small = hit[0]
             path = write_replay(mod, small)
             note = ''
             if fresh_confirm:
